@@ -116,12 +116,19 @@ type ConsState struct {
 	Rtmp        *actors.RtmpClient
 	Http        *actors.HttpClient
 	Rtsp        *actors.RtspClient
+	Push        *actors.RtmpServerStub // pseudo-consumer: a relay-push target
 	Joined      bool
 	Left        bool
 	Kicked      bool
 }
 
 func (c *ConsState) JoinDoneStep() int {
+	if c.Push != nil {
+		if !c.Push.Started {
+			return -1
+		}
+		return c.Push.StartedStep
+	}
 	if c.Rtmp != nil {
 		return c.Rtmp.JoinDoneStep
 	}
@@ -132,6 +139,9 @@ func (c *ConsState) JoinDoneStep() int {
 }
 
 func (c *ConsState) ClosedByLal() bool {
+	if c.Push != nil {
+		return false // lal ends a push session when its publisher ends
+	}
 	if c.Rtmp != nil {
 		return c.Rtmp.Closed
 	}
@@ -144,8 +154,10 @@ func (c *ConsState) ClosedByLal() bool {
 type RelayRun struct {
 	W    *World
 	Plan RelayPlan
-	Pubs []*PubState
-	Cons []*ConsState
+	// PushCons: one pseudo-consumer per connection lal made to a relay-push target
+	PushCons []*ConsState
+	Pubs     []*PubState
+	Cons     []*ConsState
 	// measurements
 	GoroutinesBase int
 	GoroutinesEnd  int
@@ -202,6 +214,14 @@ func StreamName(i int) string { return fmt.Sprintf("st%d", i) }
 // ExecRelay runs a relay plan to completion (no oracles; callers evaluate afterwards).
 func ExecRelay(k *sim.Kernel, pl RelayPlan) *RelayRun {
 	rr := &RelayRun{Plan: pl}
+	for _, addr := range pl.Conf.PushAddrs {
+		addr := addr
+		k.RegisterStub(addr, func(c *sim.Conn) (sim.ConnHandler, time.Duration) {
+			st := actors.NewRtmpServerStub(k, fmt.Sprintf("pushtarget%d", len(rr.PushCons)), c)
+			rr.PushCons = append(rr.PushCons, &ConsState{Plan: ConsPlan{Stream: -1, Proto: "push"}, Push: st, Joined: true})
+			return st, 0
+		})
+	}
 	rr.W = StartWorld(k, pl.Conf)
 	k.Advance(1100 * time.Millisecond) // first tick done: steady state
 	rr.GoroutinesBase = runtime.NumGoroutine()
